@@ -100,12 +100,16 @@ def regenerate():
     """Tie T: regenerate coq/Gen from REPO.  Returns dict module -> error text."""
     from translate import py2coq
     errs = py2coq.generate(REPO, os.path.join(COQ, "Gen"))
-    try:
-        from translate import skeleton
-    except ImportError:
-        skeleton = None
-    if skeleton is not None:
-        errs.update(skeleton.generate(REPO, os.path.join(COQ, "Gen")))
+    # further translators: translate/t_*.py, each exposing generate(repo, outdir) -> {module: error}
+    import glob
+    import importlib
+    for f in sorted(glob.glob(os.path.join(VERIF, "translate", "t_*.py"))):
+        name = os.path.basename(f)[:-3]
+        try:
+            mod = importlib.import_module("translate." + name)
+            errs.update(mod.generate(REPO, os.path.join(COQ, "Gen")))
+        except Exception as e:  # a crashing translator is a broken obligation, never a guess
+            errs[name] = "translator crashed: %r" % (e,)
     return errs
 
 
